@@ -19,7 +19,7 @@ META = dict(
     ],
     bounds=dict(
         quick="architectures (num_visible,num_hidden,num_aux) in {(1,1,1),(1,2,2),(1,1,2),(2,1,1),(2,2,1),(2,2,2),(3,1,1)}; all pairs of basis states; rho(space,space), rho(v,vp,expand=False) on all pairs, 1-D rho(v,vp)",
-        thorough="additionally (2,1,2),(1,3,3),(2,3,3),(3,2,2),(3,1,2),(4,1,1),(4,2,1); same call forms",
+        thorough="additionally (2,1,2),(1,3,3),(2,3,3),(3,2,2),(3,1,2),(4,1,1),(4,2,1),(3,3,2),(2,4,4),(1,4,4),(3,1,3),(4,3,1); same call forms",
     ),
     outside=["floating point", "num_visible = 4 with num_aux > 1, num_aux = 4, architectures not listed (query size grows as 4^n 4^a)",
              "the measure-zero parameter set where 1 + exp(x_k + i y_k) = 0 for an auxiliary unit (log 0 in the real-arithmetic model); listed under assumptions"],
@@ -119,7 +119,7 @@ def scenario(B, G, n, h, a, psd=True):
 def jobs(tier):
     archs = [(1, 1, 1), (1, 2, 2), (1, 1, 2), (2, 1, 1), (2, 2, 1), (2, 2, 2), (3, 1, 1)]
     if tier != "quick":
-        archs += [(2, 1, 2), (1, 3, 3), (2, 3, 3), (3, 2, 2), (3, 1, 2), (4, 1, 1), (4, 2, 1)]
+        archs += [(2, 1, 2), (1, 3, 3), (2, 3, 3), (3, 2, 2), (3, 1, 2), (4, 1, 1), (4, 2, 1), (3, 3, 2), (2, 4, 4), (1, 4, 4), (3, 1, 3), (4, 3, 1)]
     out = [dict(name="dm-%d-%d-%d" % t, module="checks.c02", scenario="scenario", kwargs=dict(n=t[0], h=t[1], a=t[2])) for t in archs]
     out.sort(key=lambda j: -(4 ** j["kwargs"]["n"]) * (4 ** j["kwargs"]["a"]) * (2 ** j["kwargs"]["h"]))
     return out
